@@ -429,6 +429,144 @@ def s7_parser_arms(src_text, which, stats):
     return "".join(out)
 
 
+
+def find_stmt_end(text, i):
+    """index just past the `;` that ends the statement starting at text[i] (depth 0; strings/comments skipped)"""
+    depth, k, n = 0, i, len(text)
+    while k < n:
+        ch = text[k]
+        if ch == '"':
+            k += 1
+            while text[k] != '"':
+                k += 2 if text[k] == "\\" else 1
+        elif ch == "'" and re.match(r"'(\\.|[^\\'])'", text[k:k + 4]):
+            k += len(re.match(r"'(\\.|[^\\'])'", text[k:k + 4]).group(0)) - 1
+        elif text.startswith("//", k):
+            k = text.index("\n", k)
+            continue
+        elif ch in "([{":
+            depth += 1
+        elif ch in ")]}":
+            depth -= 1
+        elif ch == ";" and depth == 0:
+            return k + 1
+        k += 1
+    return -1
+
+
+def s8_compaction_fold(src_text, stats):
+    """S8: the per-key survivor rule and the tombstone rule of Compactor::compact() are written inline in an
+    async fn between object-store awaits. Their statements are copied into a synchronous function of the deltas
+    read from the selected segments: (a) the `Ok(delta) => { .. }` arm of the loop over a segment's records,
+    (b) the `let tombstone_cutoff = ..;` statement, (c) the `key_to_delta.retain(..);` statement.
+    Fails closed if any piece touches `self` (other than self.config.tombstone_ttl), awaits, or is missing."""
+    f = extract_fn(src_text, "compact")
+    if f is None:
+        die("S8: fn compact not found")
+    a = "for delta_result in deltas_iter {"
+    if f.count(a) != 1:
+        die("S8: record loop not found exactly once")
+    i = f.index(a) + len(a)
+    m = re.match(r"\s*match delta_result \{", f[i:])
+    if not m:
+        die("S8: record loop does not start with `match delta_result`")
+    mb = i + m.end() - 1
+    me = brace_block_end(f, mb)
+    arms = split_match_arms(f[mb + 1:me])
+    ok = [e for p_, e in arms if p_.replace(" ", "") == "Ok(delta)"]
+    if len(ok) != 1 or not ok[0].lstrip().startswith("{"):
+        die("S8: `Ok(delta) => { .. }` arm not found")
+    arm = ok[0]
+    cm = re.search(r"let tombstone_cutoff\s*=", f)
+    if not cm or len(re.findall(r"let tombstone_cutoff\s*=", f)) != 1:
+        die("S8: `let tombstone_cutoff =` not found exactly once")
+    cutoff = f[cm.start():find_stmt_end(f, cm.start())]
+    cutoff = cutoff.replace("self.config.tombstone_ttl", "tombstone_ttl")
+    rm = [x.start() for x in re.finditer(r"key_to_delta\s*\.retain\(", f)]
+    if len(rm) != 1:
+        die("S8: `key_to_delta.retain(` not found exactly once")
+    retain = f[rm[0]:find_stmt_end(f, rm[0])]
+    for name, piece in (("arm", arm), ("cutoff", cutoff), ("retain", retain)):
+        if re.search(r"\bself\b|\.await|\bstore\b|\bmanifest\b", piece):
+            die("S8: %s uses more than the deltas, the clock reading and the configured TTL" % name)
+    stats["s8"] = 3
+    # the records arrive as three optional parameters, not as a Vec: a value that has been through the heap comes back
+    # with a discriminant CBMC no longer knows, and every CRDT kind would be explored. The arm text is copied per slot.
+    return ("\n// ---- S8: generated by /verif/stage/stage.py (statements copied from Compactor::compact) ----\n"
+            "#[allow(dead_code, unused_variables, unused_mut, unused_assignments, clippy::all)]\n"
+            "pub fn verif_compact_fold(d0: Option<ReplicationDelta>, d1: Option<ReplicationDelta>, d2: Option<ReplicationDelta>, current_time: u64, tombstone_ttl: Duration) -> (HashMap<String, ReplicationDelta>, u64) {\n"
+            "    let mut deltas_before = 0u64;\n"
+            "    let mut key_to_delta: HashMap<String, ReplicationDelta> = HashMap::new();\n"
+            "    " + cutoff + "\n"
+            "    if let Some(delta) = d0 " + arm + "\n"
+            "    if let Some(delta) = d1 " + arm + "\n"
+            "    if let Some(delta) = d2 " + arm + "\n"
+            "    let mut tombstones_removed = 0u64;\n"
+            "    " + retain + "\n"
+            "    (key_to_delta, tombstones_removed)\n}\n")
+
+
+def s9_recover_plan(src_text, stats):
+    """S9: which listed segments RecoveryManager::recover() loads, and in which order, is computed by synchronous
+    statements between two awaits (after the checkpoint has been read, before the first segment is fetched). They are
+    copied into a function of the manifest, the checkpoint presence and the checkpoint's last segment id; the plan is
+    the sequence of ids the `for segment_info in ..` loop iterates over."""
+    f = extract_fn(src_text, "recover")
+    if f is None:
+        die("S9: fn recover not found")
+    a = re.search(r"let \(checkpoint_state, last_checkpoint_segment\)\s*=", f)
+    if not a:
+        die("S9: checkpoint statement not found")
+    start = find_stmt_end(f, a.start())
+    b = re.search(r"for segment_info in ([^{]+?)\s*\{", f[start:])
+    if not b:
+        die("S9: `for segment_info in ..` not found")
+    region = f[start:start + b.start()]
+    iter_expr = b.group(1)
+    if re.search(r"\bself\b|\.await", region + iter_expr):
+        die("S9: segment selection uses self or awaits")
+    # the accumulator the loop body fills is declared in the region; its element type is inferred from the loop body
+    region = re.sub(r"let mut (\w+) = Vec::new\(\);", r"let mut \1: Vec<ReplicationDelta> = Vec::new();", region)
+    stats["s9"] = 1
+    return ("\n// ---- S9: generated by /verif/stage/stage.py (statements copied from RecoveryManager::recover) ----\n"
+            "#[allow(dead_code, unused_variables, unused_mut, unused_assignments, clippy::all)]\n"
+            "pub fn verif_recover_segment_plan(manifest: &Manifest, checkpoint_state: &Option<HashMap<String, ReplicatedValue>>, last_checkpoint_segment: u64) -> Vec<u64> {\n"
+            "    let mut stats = RecoveryStats::default();\n"
+            + region +
+            "\n    let mut verif_plan: Vec<u64> = Vec::new();\n"
+            "    for segment_info in " + iter_expr + " { verif_plan.push(segment_info.id); }\n"
+            "    verif_plan\n}\n")
+
+
+def s10_recovered_arm(src_text, stats):
+    """S10: the `ApplyRecoveredState { key, value }` arm of ReplicatedShardActor::run() (how a checkpoint entry enters a
+    shard after a restart) lives inside the async message loop. Its body is copied into a function of the two fields
+    it touches."""
+    f = extract_fn(src_text, "run")
+    if f is None:
+        die("S10: fn run not found in replicated_shard_actor.rs")
+    a = "match msg {"
+    if f.count(a) != 1:
+        die("S10: `match msg {` not found exactly once")
+    mb = f.index(a) + len(a) - 1
+    me = brace_block_end(f, mb)
+    arms = split_match_arms(f[mb + 1:me])
+    hit = [e for p_, e in arms if re.sub(r"\s+", "", p_) == "ReplicatedShardMessage::ApplyRecoveredState{key,value}"]
+    if len(hit) != 1:
+        die("S10: ApplyRecoveredState arm not found")
+    body = hit[0]
+    fields = set(re.findall(r"\bself\.([a-zA-Z_][a-zA-Z0-9_]*)", body))
+    if fields - {"replica_state", "executor"} or ".await" in body or re.search(r"\bself\b(?!\.)", body):
+        die("S10: ApplyRecoveredState arm uses %s" % sorted(fields))
+    body = re.sub(r"\bself\.replica_state\b", "(*replica_state)", body)
+    body = re.sub(r"\bself\.executor\b", "(*executor)", body)
+    stats["s10"] = 1
+    return ("\n// ---- S10: generated by /verif/stage/stage.py (ApplyRecoveredState arm of ReplicatedShardActor::run; text copied) ----\n"
+            "#[allow(dead_code, unused_variables, unused_mut, clippy::all)]\n"
+            "pub fn verif_apply_recovered_state(replica_state: &mut ShardReplicaState, executor: &mut CommandExecutor, key: String, value: crate::replication::state::ReplicatedValue) "
+            + (body if body.lstrip().startswith("{") else "{ " + body + "; }") + "\n")
+
+
 def write_if_changed(path, data):
     if os.path.exists(path):
         with open(path, "rb") as f:
@@ -470,11 +608,17 @@ def main():
                     text += s7_parser_arms(text, "prod", stats)
                 if rel == "src/streaming/recovery.rs":
                     text += s5_wal_threshold(text, stats)
+                    text += s9_recover_plan(text, stats)
+                if rel == "src/streaming/compaction.rs":
+                    text += s8_compaction_fold(text, stats)
+                if rel == "src/production/replicated_shard_actor.rs":
+                    text += s10_recovered_arm(text, stats)
                 if rel == "src/redis/mod.rs":
                     text += "\n// S7: generated re-exports\npub use commands::verif_arms_prod;\npub use parser::verif_arms_sim;\n"
                 if rel == "src/production/mod.rs":
                     text += ("\n// S3: generated re-exports\npub use connection_optimized::{verif_batch_admitted, verif_collect_get_keys, "
-                             "verif_collect_set_pairs, verif_fast_get_parse, verif_fast_set_parse};\n")
+                             "verif_collect_set_pairs, verif_fast_get_parse, verif_fast_set_parse};\n"
+                             "// S10: generated re-export\npub use replicated_shard_actor::verif_apply_recovered_state;\n")
                 if changed:
                     stats["files_substituted"] += 1
                 data = text.encode("utf-8")
